@@ -161,7 +161,7 @@ func BreakCalls(c *Change, r *rand.Rand) (*Change, bool) {
 	for _, l := range c.Lines {
 		t := l.Text
 		i := strings.Index(t, "(")
-		if l.Prefix == ' ' || i <= 0 || !isIdentByte(t[i-1]) || !strings.HasSuffix(t, ")") || closeOf(t, i) != len(t)-1 || strings.Contains(t, "`") || strings.TrimSpace(t[i+1:len(t)-1]) == "" {
+		if i <= 0 || !isIdentByte(t[i-1]) || !strings.HasSuffix(t, ")") || closeOf(t, i) != len(t)-1 || strings.Contains(t, "`") || strings.TrimSpace(t[i+1:len(t)-1]) == "" {
 			out = append(out, l)
 			continue
 		}
